@@ -24,6 +24,9 @@ type c15Input struct {
 	New   *expv1.Experiment `json:"new"`
 	World world             `json:"world"`
 	Muts  []string          `json:"edits"`
+	// the updated object reaches the validator as submitted, not defaulted (the defaulting webhook is a separate webhook
+	// whose failure can be ignored by configuration; the update rule is a property of the validator on every pair)
+	Raw bool `json:"raw,omitempty"`
 }
 
 type c15 struct{}
@@ -35,7 +38,7 @@ func (c15) Rule() string {
 		"filled by reflection) and mutate exactly one type-level path each (every leaf value; every pointer to nil, slice grown, map key added) - " +
 		"the path list is the one the translator wrote to Gen/SpecFields.v; (b) random: a valid defaulted experiment (4 shapes x collectors) with " +
 		"no edit / metadata-only edit / budget edits around status.trials / one or two structural C14 mutations / both. Stored status: 10 condition " +
-		"lists (none, created, running, succeeded by max trials / by goal, failed, restarted, succeeded=False, duplicate conditions) x status.trials 0-8 x resumePolicy. " +
+		"lists (none, created, running, succeeded by max trials / by goal, failed, restarted, succeeded=False, duplicate conditions) x status.trials 0-8 x resumePolicy (Never / LongRunning / FromVolume, and unset as on an experiment stored without defaulting). " +
 		"Non-trivial: the specs differ. Distinct: by (new, old budget, digests, status)."
 }
 
@@ -96,11 +99,30 @@ func (c15) Gen(r *rand.Rand, i, n int) any {
 	base = canon(base)
 	old := base.Exp
 	old.SetDefault()
+	if r.Intn(5) == 0 {
+		// a stored experiment that never went through the defaulting webhook: resumePolicy unset (the validator accepts "")
+		old.Spec.ResumePolicy = ""
+	}
 	in.World = base.World
-	in.Muts = append(in.Muts, randomStatus(r, old))
+	in.Muts = append(in.Muts, randomStatus(r, old), "resume:"+string(old.Spec.ResumePolicy))
 	nw := old.DeepCopy()
 	edit := r.Intn(20)
+	if r.Intn(6) == 0 && old.Spec.MaxTrialCount != nil {
+		// a restart attempt: a completed stored experiment (by max trials / by goal / failed) whose maxTrialCount is raised above
+		// the trials it has, nothing else touched -- admitted exactly for "succeeded by max trials" under LongRunning / FromVolume
+		k := kit.Pick(r, []int{3, 3, 3, 4, 5, 8})
+		old.Status.Conditions = append([]expv1.ExperimentCondition{}, condStates[k]...)
+		nw = old.DeepCopy()
+		nw.Spec.MaxTrialCount = i32(old.Status.Trials + 1 + int32(r.Intn(5)))
+		if nw.Spec.MaxFailedTrialCount != nil && *nw.Spec.MaxFailedTrialCount > *nw.Spec.MaxTrialCount {
+			nw.Spec.MaxFailedTrialCount = nw.Spec.MaxTrialCount
+		}
+		in.Muts[len(in.Muts)-2] = fmt.Sprintf("status:%d", k)
+		in.Muts = append(in.Muts, "edit:restart-attempt")
+		edit = -1
+	}
 	switch {
+	case edit < 0:
 	case edit < 4:
 		in.Muts = append(in.Muts, "edit:none")
 	case edit < 6:
@@ -145,6 +167,10 @@ func (c15) Gen(r *rand.Rand, i, n int) any {
 		}
 	}
 	in.Old, in.New = old, nw
+	if old.Spec.ResumePolicy == "" && edit < 14 && r.Intn(2) == 0 { // budget / metadata / no edit only: crash safety is stated (C14) for defaulted objects
+		in.Raw = true
+		in.Muts = append(in.Muts, "new-not-defaulted")
+	}
 	raw, _ := json.Marshal(in)
 	var out c15Input
 	if err := json.Unmarshal(raw, &out); err != nil {
@@ -188,7 +214,7 @@ func (c15) Run(input any) kit.Case {
 	c.Input = in
 	vo := runValidate(in.World, in.Old, nil, true)
 	_ = withStrings("") // forget the strings of the old object's projection
-	v := runValidate(in.World, in.New, in.Old, true)
+	v := runValidate(in.World, in.New, in.Old, !in.Raw)
 	oldAdmitted := vo.panicked == "" && len(vo.errs) == 0
 	old := fmt.Sprintf("{| o_par := %s; o_max := %s; o_mf := %s; o_rest := %s; o_trials := %s; o_conds := %s; o_resume := %s |}",
 		optZ32(in.Old.Spec.ParallelTrialCount), optZ32(in.Old.Spec.MaxTrialCount), optZ32(in.Old.Spec.MaxFailedTrialCount),
